@@ -16,7 +16,7 @@ type MapCodec struct {
 func (m *MapCodec) Read(r *ReadBuf, p unsafe.Pointer) error {
 	// p is a pointer to a map pointer
 	if *(*unsafe.Pointer)(p) == nil {
-		*(*unsafe.Pointer)(p) = m.New(r)
+		*(*unsafe.Pointer)(p) = unsafe.Pointer(reflect.MakeMap(m.rtype).Pointer())
 	}
 	mp := *(*unsafe.Pointer)(p)
 
@@ -95,8 +95,11 @@ func (m *MapCodec) Skip(r *ReadBuf) error {
 	return nil
 }
 
+// New returns a pointer to a nil map variable of the codec's map type. It is
+// allocated as that type so the garbage collector sees the map stored in it;
+// Read creates the map itself.
 func (m *MapCodec) New(r *ReadBuf) unsafe.Pointer {
-	return unsafe.Pointer(reflect.MakeMap(m.rtype).Pointer())
+	return r.Alloc(m.rtype)
 }
 
 func (m *MapCodec) Omit(p unsafe.Pointer) bool {
